@@ -17,6 +17,10 @@ N4  Copy propagation of a local bound once to an *access path* (`ch = state.line
     the uses are replaced by the path when every use is reached, in program order within the block of the binding, before any
     statement that stores to something the path reads or makes a call (calls may change the state objects).
 
+N5  `x = x + k` is `x += k` for a numeric constant k.
+N6  A local bound once and used once, in the statement right after its binding and before anything else with an effect is
+    evaluated there, is inlined (single-use temporaries).
+
 Line numbers of the surviving nodes are untouched, so reports still point at the source."""
 from __future__ import annotations
 
@@ -231,6 +235,65 @@ def _replace(fn, name: str, st: ast.Assign) -> None:
                 return
 
 
+def _inline_temporaries(fn) -> None:
+    """N6: a local bound once and used exactly once, in the statement that immediately follows its binding, is that
+    expression — provided nothing with an effect is evaluated in that statement before the use (so the order of evaluation is
+    unchanged).  `readline = io.StringIO(s).readline` / `f(readline)`  ->  `f(io.StringIO(s).readline)`."""
+    params = {a.arg for a in fn.args.posonlyargs + fn.args.args + fn.args.kwonlyargs}
+    changed = True
+    while changed:
+        changed = False
+        stores: dict[str, int] = {}
+        loads: dict[str, list] = {}
+        for n in _own(fn):
+            if isinstance(n, ast.Name):
+                if isinstance(n.ctx, (ast.Store, ast.Del)):
+                    stores[n.id] = stores.get(n.id, 0) + 1
+                else:
+                    loads.setdefault(n.id, []).append(n)
+        nested = {n.id for d in _own(fn) if isinstance(d, (ast.FunctionDef, ast.AsyncFunctionDef, ast.Lambda)) for n in ast.walk(d)
+                  if isinstance(n, ast.Name)}
+        for seq in list(_blocks(fn)):
+            for i, st in enumerate(seq[:-1]):
+                if not (isinstance(st, ast.Assign) and len(st.targets) == 1 and isinstance(st.targets[0], ast.Name)):
+                    continue
+                name = st.targets[0].id
+                if stores.get(name) != 1 or name in params or name in nested or len(loads.get(name, [])) != 1:
+                    continue
+                if any(isinstance(x, (ast.Yield, ast.YieldFrom, ast.Await, ast.NamedExpr, ast.Lambda, ast.ListComp, ast.SetComp,
+                                      ast.DictComp, ast.GeneratorExp, ast.Starred)) for x in ast.walk(st.value)):
+                    continue
+                use = loads[name][0]
+                nxt = seq[i + 1]
+                if isinstance(nxt, (ast.For, ast.While, ast.If, ast.Try, ast.With, ast.FunctionDef, ast.ClassDef, ast.AsyncFor, ast.AsyncWith, ast.Match)):
+                    # only the header expression of a compound statement is "the next thing evaluated"
+                    header = nxt.test if isinstance(nxt, (ast.If, ast.While)) else (nxt.iter if isinstance(nxt, (ast.For, ast.AsyncFor)) else None)
+                    if header is None or not any(x is use for x in ast.walk(header)):
+                        continue
+                    scope = header
+                    if isinstance(nxt, ast.While):
+                        continue  # re-evaluated on every iteration
+                else:
+                    if not any(x is use for x in ast.walk(nxt)):
+                        continue
+                    scope = nxt
+                upos = (use.lineno, use.col_offset)
+                # nothing with an effect completes before the use
+                if any(isinstance(x, (ast.Call, ast.Yield, ast.YieldFrom, ast.Await)) and
+                       (getattr(x, "end_lineno", 0), getattr(x, "end_col_offset", 0)) <= upos for x in ast.walk(scope)):
+                    continue
+                # an assignment evaluates its right-hand side first, then the targets: a use inside a target comes after the value
+                if isinstance(nxt, (ast.Assign, ast.AugAssign, ast.AnnAssign)):
+                    tg = nxt.targets if isinstance(nxt, ast.Assign) else [nxt.target]
+                    if any(x is use for t in tg for x in ast.walk(t)):
+                        continue
+                _replace(fn, name, st)
+                changed = True
+                break
+            if changed:
+                break
+
+
 class _AugAssign(ast.NodeTransformer):
     """N5: `x = x + k` / `x = x - k` with a numeric constant k is `x += k` / `x -= k` (same for every immutable x)."""
 
@@ -257,6 +320,9 @@ def normalise(mod: ast.Module, newtypes: set[str], fields: dict) -> ast.Module:
     for n in ast.walk(mod):
         if isinstance(n, (ast.FunctionDef, ast.AsyncFunctionDef)):
             _propagate_paths(n)
+    for n in ast.walk(mod):
+        if isinstance(n, (ast.FunctionDef, ast.AsyncFunctionDef)):
+            _inline_temporaries(n)
     mod = _AugAssign().visit(mod)
     ast.fix_missing_locations(mod)
     return mod
